@@ -142,6 +142,18 @@ func (m *model) knownOperationNames() []string {
 	return names
 }
 
+// liveOperationNames lists operations that still exist.
+func (m *model) liveOperationNames() []string {
+	var names []string
+	for n, op := range m.ops {
+		if !op.removed {
+			names = append(names, n)
+		}
+	}
+	sort.Strings(names)
+	return names
+}
+
 func digestKey(instance, hash string) string { return instance + "|" + hash }
 
 func (m *model) liveCacheable(key string) *taskModel {
@@ -425,6 +437,11 @@ func (m *model) observe() {
 			if t.prevStage == remoteexecution.ExecutionStage_EXECUTING && !(t.acceptedCompletion != nil && t.acceptedStep == w.stepNo) {
 				m.fairOnNonWorkerCompletion(t.prevWorkerKey, t.prevQueue)
 			}
+			for _, s := range w.streams {
+				if name, ok := m.streamOp[s.id]; ok && t.opNames[name] && s.stream.gate.waiting() > 0 {
+					m.label("completion_while_send_parked")
+				}
+			}
 			t.final = vt.ExecuteResponse
 			t.finalStep = w.stepNo
 			t.finalTime = now
@@ -642,7 +659,7 @@ func (m *model) observeStreams(snap *scheduler.VerifSnapshot, now time.Time) {
 		m.seenMsgs[s.id] = len(msgs)
 		// C06: a stream blocked on a task is woken up by its completion;
 		// Send never blocks here, so at quiescence it has its done message.
-		if name, ok := m.streamOp[s.id]; ok && !finished && !s.broken && !s.cancelled && !m.streamDone[s.id] {
+		if name, ok := m.streamOp[s.id]; ok && !finished && !s.broken && !s.cancelled && !m.streamDone[s.id] && s.stream.gate.waiting() == 0 {
 			if t := m.byOp[name]; t != nil && t.final != nil {
 				if op := m.ops[name]; op != nil && !op.removed {
 					w.failf("C06: stream %d is still blocked although task %s completed in step %d with %v", s.id, t.actionID, t.finalStep, t.final)
